@@ -124,6 +124,10 @@ pub struct GraphCase {
 }
 
 pub fn graph_cases(tier: Tier) -> Vec<GraphCase> {
+    graph_cases_with(tier, false)
+}
+/// `full_lattice`: all 3-subsets of the dataset lattice even in the quick tier
+pub fn graph_cases_with(tier: Tier, full_lattice: bool) -> Vec<GraphCase> {
     let mut v = vec![];
     // all digraphs with self-loops on <= 3 (quick) / 4 (thorough) blank nodes
     let nmax = tier.pick(3, 4);
@@ -161,6 +165,51 @@ pub fn graph_cases(tier: Tier) -> Vec<GraphCase> {
         }
         v.push(GraphCase { name: format!("digraph-in-blank-graph(n={n},mask={mask})"), quads: in_blank_graph(&g, "gg"), family: None });
         v.push(GraphCase { name: format!("digraph-in-own-node-graph(n={n},mask={mask})"), quads: in_blank_graph(&g, "e0"), family: None });
+    }
+    if full_lattice && tier == Tier::Quick {
+        // (C06 is cheap per case: the 4-node digraphs inside a blank graph name are affordable in its quick tier)
+        for mask in 1..(1u64 << 16) {
+            let Some(g) = digraph(4, mask, false) else { continue };
+            v.push(GraphCase { name: format!("digraph-in-blank-graph(n=4,mask={mask})"), quads: in_blank_graph(&g, "gg"), family: None });
+            v.push(GraphCase { name: format!("digraph-in-own-node-graph(n=4,mask={mask})"), quads: in_blank_graph(&g, "e0"), family: None });
+        }
+    }
+    // every dataset of <= 2 (quick; plus every 3rd 3-subset) / 3 (thorough) quads over a universe in which blank
+    // nodes occur as subject, object and graph name, graph names are default / two IRIs / two blank
+    // nodes, and the same triple can sit in several graphs
+    {
+        let subjects = [ATerm::b("a"), ATerm::b("b"), ATerm::b("c")];
+        let preds = [p(), ATerm::iri("http://ex.org/q")];
+        let objects = [ATerm::b("a"), ATerm::b("b"), ATerm::lit("1")];
+        let graphs = [None, Some(ATerm::iri("http://ex.org/g")), Some(ATerm::b("c")), Some(ATerm::b("d"))];
+        let mut u: Vec<AQuad> = vec![];
+        for g in &graphs {
+            for s in &subjects {
+                for pr in &preds {
+                    for o in &objects {
+                        u.push(([s.clone(), pr.clone(), o.clone()], g.clone()));
+                    }
+                }
+            }
+        }
+        let mut k3 = 0usize;
+        subsets_upto(u.len(), 3, &mut |idx| {
+            if idx.is_empty() {
+                return;
+            }
+            if idx.len() == 3 {
+                k3 += 1;
+                if tier == Tier::Quick && !full_lattice && k3 % 3 != 0 {
+                    return;
+                }
+            }
+            let quads: Vec<AQuad> = idx.iter().map(|i| u[*i].clone()).collect();
+            if quad_bnodes(&quads).is_empty() {
+                return;
+            }
+            let name = format!("dataset-lattice({})", idx.iter().map(|i| i.to_string()).collect::<Vec<_>>().join(","));
+            v.push(GraphCase { name, quads, family: Some("dataset-lattice".into()) });
+        });
     }
     // symmetric families
     let top = tier.pick(7, 8);
@@ -240,7 +289,14 @@ fn check_one(gc: &GraphCase, st: &mut Stats, out: &mut Vec<Violation>) -> Option
         match sophia_canon(&r, Container::Hash, false) {
             Ok(o) if o == base => {}
             other => {
-                out.push(Violation::new("depends-on-labels", format!("{}: relabelling {perm:?} changes the canonical form: {:?} vs {:?}", gc.name, other, base), case.clone()));
+                // is the difference the Recommendation's own (an independent implementation of RDFC-1.0
+                // gives exactly these two documents), or the toolkit's?
+                let w3c = match &other {
+                    Ok(o) => w3c_gives(&r, o, false) && w3c_gives(&gc.quads, &base, false),
+                    Err(_) => false,
+                };
+                let sig = if w3c { "rdfc10-itself-depends-on-labels" } else { "depends-on-labels" };
+                out.push(Violation::new(sig, format!("{}: relabelling {perm:?} changes the canonical form: {:?} vs {:?}", gc.name, other, base), case.clone()));
                 break;
             }
         }
@@ -248,8 +304,13 @@ fn check_one(gc: &GraphCase, st: &mut Stats, out: &mut Vec<Violation>) -> Option
     {
         let perm: Vec<usize> = (0..n).rev().collect();
         let r = relabelled(&gc.quads, &labels, &perm, "y");
-        if sophia_canon(&r, Container::BTree, true) != base384 {
-            out.push(Violation::new("depends-on-labels:sha384", format!("{}", gc.name), case.clone()));
+        let got = sophia_canon(&r, Container::BTree, true);
+        if got != base384 {
+            let w3c = match (&got, &base384) {
+                (Ok(g), Ok(b)) => w3c_gives(&r, g, true) && w3c_gives(&gc.quads, b, true),
+                _ => false,
+            };
+            out.push(Violation::new(if w3c { "rdfc10-itself-depends-on-labels" } else { "depends-on-labels:sha384" }, format!("{} (sha384)", gc.name), case.clone()));
         }
         st.inc("validated");
     }
@@ -335,7 +396,7 @@ pub fn run(tier: Tier) -> Report {
     for (f, members) in &fam {
         let keys: Vec<String> = members.par_iter().map(|(i, _)| brute_force_key(&cases[*i].quads)).collect();
         let mut out2key: HashMap<&str, &str> = HashMap::new();
-        let mut key2out: HashMap<&str, &str> = HashMap::new();
+        let mut key2out: HashMap<&str, (usize, &str)> = HashMap::new();
         for ((i, o), k) in members.iter().zip(&keys) {
             rep.stats.inc("validated");
             if let Some(k0) = out2key.insert(o.as_str(), k.as_str()) {
@@ -343,9 +404,11 @@ pub fn run(tier: Tier) -> Report {
                     rep.violations.push(Violation::new("non-isomorphic-graphs-share-a-canonical-form", format!("{} and another graph of family {f}", cases[*i].name), json!({"name": cases[*i].name, "quads": quads_nq(&cases[*i].quads)})));
                 }
             }
-            if let Some(o0) = key2out.insert(k.as_str(), o.as_str()) {
+            if let Some((j, o0)) = key2out.insert(k.as_str(), (*i, o.as_str())) {
                 if o0 != o.as_str() {
-                    rep.violations.push(Violation::new("isomorphic-graphs-get-different-canonical-forms", format!("{} and another graph of family {f}", cases[*i].name), json!({"name": cases[*i].name, "quads": quads_nq(&cases[*i].quads)})));
+                    let w3c = w3c_gives(&cases[*i].quads, o, false) && w3c_gives(&cases[j].quads, o0, false);
+                    let sig = if w3c { "rdfc10-itself-depends-on-labels" } else { "isomorphic-graphs-get-different-canonical-forms" };
+                    rep.violations.push(Violation::new(sig, format!("{} and {} (family {f}) are isomorphic but get different canonical forms", cases[*i].name, cases[j].name), json!({"name": cases[*i].name, "quads": quads_nq(&cases[*i].quads), "other": quads_nq(&cases[j].quads)})));
                 }
             }
         }
@@ -354,7 +417,7 @@ pub fn run(tier: Tier) -> Report {
     }
     rep.stats.sample(json!({"name": cases[cases.len() / 2].name, "quads": quads_nq(&cases[cases.len() / 2].quads)}));
     rep.rule = format!(
-        "all digraphs with self-loops on <= {} blank nodes, all loop-free digraphs on {} nodes, all undirected graphs on {} nodes, 3/4-node digraphs decorated with every subset of ground marks and placed in a blank graph name (fresh or one of the nodes), symmetric families (cycles to 13, stars, cliques, K(m,n), disjoint copies, ladders, binary trees); each graph: all n! relabellings (n <= 4, and n = 5 except for the 1M loop-free digraphs; ~20 structured permutations otherwise), 3 insertion orders x 4 containers, SHA-256 and SHA-384; the output is parsed back (independent reader and the toolkit's parser), compared with the input through the returned id map and by brute-force isomorphism, and the partition of each exhaustive family by canonical form is compared with the partition by a brute-force canonical key; non-trivial = number of isomorphism classes met",
+        "all digraphs with self-loops on <= {} blank nodes, all loop-free digraphs on {} nodes, all undirected graphs on {} nodes, 3/4-node digraphs decorated with every subset of ground marks and placed in a blank graph name (fresh or one of the nodes), every dataset of <= 3 quads over a 72-quad universe (subjects _:a _:b _:c, predicates p q, objects _:a _:b \"1\", graph names default / an IRI / _:c / _:d; quick: every 3rd 3-subset), symmetric families (cycles to 13, stars, cliques, K(m,n), disjoint copies, ladders, binary trees); each graph: all n! relabellings (n <= 4, and n = 5 except for the 1M loop-free digraphs; ~20 structured permutations otherwise), 3 insertion orders x 4 containers, SHA-256 and SHA-384; the output is parsed back (independent reader and the toolkit's parser), compared with the input through the returned id map and by brute-force isomorphism, and the partition of each exhaustive family by canonical form is compared with the partition by a brute-force canonical key; non-trivial = number of isomorphism classes met",
         tier.pick(3, 4),
         tier.pick(4, 5),
         tier.pick(5, 6)
@@ -378,6 +441,11 @@ pub fn replay(case: &Value) -> Vec<Violation> {
 
 // =============================================================================================
 // C06
+
+/// does an independent implementation of the Recommendation produce exactly this document?
+fn w3c_gives(quads: &[AQuad], doc: &str, sha384: bool) -> bool {
+    ref_canon(quads, sha384).map(|c| c.doc == doc).unwrap_or(false)
+}
 
 fn ref_canon(quads: &[AQuad], sha384: bool) -> Option<refrdfc::Canon> {
     let qs: Option<Vec<refrdfc::Q>> = quads.iter().map(refrdfc::q_of).collect();
@@ -508,7 +576,7 @@ fn validate_reference() {
 pub fn run_c06(tier: Tier) -> Report {
     let mut rep = Report::new("C06", tier);
     validate_reference();
-    let mut cases = graph_cases(tier);
+    let mut cases = graph_cases_with(tier, true);
     // literals with every escape-relevant character, in object position, with a blank graph name
     let chars: Vec<char> = (0u32..0x100).chain([0x2028, 0xD7FF, 0xE000, 0xFFFD, 0xFFFE, 0xFFFF, 0x10000, 0x10FFFF]).filter_map(char::from_u32).collect();
     for c in chars {
